@@ -7,13 +7,12 @@ Local Open Scope N_scope.
 Definition case4 := (cfg * list ev * list obs * list seen5)%type.
 Definition agree4 (c : case4) : bool := let '(a, b, c0, d) := c in agree_case a b c0 d.
 
-(* the record a reader must see for an abstract record (no wrap: the true depth and address) *)
-Definition ideal (r : rec) : seen5 := (r_time r, type_code (r_type r), RECORD_MAGIC, r_depth r, r_addr r).
 
 (* C02: plain configuration, complete forest: the observed stream is the specification
-   (limit = min(-D, --max-stack); with a threshold only when the stack limit is not reached) *)
+   (limit = min(-D, --max-stack, 1024); with a threshold only when the stack limit is not reached) *)
 Definition ok_c02 (thr gd ms : N) (f : list call) (orecs : list seen5) : bool :=
-  list_eqb seen_eqb orecs (map ideal (flat_map (recs thr (N.min gd ms) 0) f)).
+  let lim := if thr =? 0 then N.min (N.min gd ms) 1024 else N.min gd ms in   (* 1024: the depth field (DepthField.v) *)
+  list_eqb seen_eqb orecs (map ideal (flat_map (recs thr lim 0) f)).
 
 (* per-event observation of the fast variants (no filter state): idx and record_idx only *)
 Definition obs_fast_eqb (a b : obs) : bool :=
@@ -21,7 +20,7 @@ Definition obs_fast_eqb (a b : obs) : bool :=
 Definition agree_fast (c : case4) : bool :=
   let '(cf, es, ostates, orecs) := c in
   let '(l, (s, _)) := trace cf es (init, []) in
-  list_eqb obs_fast_eqb l ostates && list_eqb seen_eqb (map seen (out s)) orecs.
+  list_eqb obs_fast_eqb l ostates && list_eqb seen_eqb (disk (out s)) orecs.
 
 (* a forked child: events before ForkChild run in the parent *)
 Definition ok_fork (thr gd ms : N) (sh : shape) (pre : list ev) (f : list call) (orecs : list seen5) : bool :=
@@ -172,7 +171,7 @@ Definition ok_sel2z (tgl : list (N * strig)) (sizes : list (N * N)) (fm hc lm : 
 
 (* the finish trigger: the implementation's records against the model run that stops at the first firing entry *)
 Definition ok_fin (c : cfg) (es : list ev) (orecs : list seen5) : bool :=
-  list_eqb seen_eqb (map seen (out (fst (fst (exec_f c es (init, [], false)))))) orecs.
+  list_eqb seen_eqb (disk (out (fst (fst (exec_f c es (init, [], false)))))) orecs.
 (* did the finish trigger fire at all in the model run (statistics) *)
 Definition fin_fired (c : cfg) (es : list ev) : bool := snd (exec_f c es (init, [], false)).
 
@@ -182,7 +181,7 @@ Definition agree4off (p : case4) : bool := let '(a, b, c0, d) := p in agree_case
 (* a thread that ends in pthread_exit() with calls still open: the implementation's records against the model
    (events, then the wrapper's flush of the open calls) ... *)
 Definition ok_pexit (c : cfg) (es : list ev) (orecs : list seen5) : bool :=
-  list_eqb seen_eqb (map seen (out (do_thread_exit c (fst (exec c es (init, [])))))) orecs.
+  list_eqb seen_eqb (disk (out (do_thread_exit c (fst (exec c es (init, [])))))) orecs.
 (* ... and, for the plain configuration within the limits, against the event prefix itself: an ENTRY for every call
    entered, an EXIT for every call left, depth = number of open calls *)
 Fixpoint prefix_records (es : list ev) (stk : list N) : list rec :=
@@ -196,4 +195,4 @@ Fixpoint prefix_records (es : list ev) (stk : list N) : list rec :=
   | ForkChild :: r => prefix_records r stk
   end.
 Definition ok_pexit_plain (es : list ev) (orecs : list seen5) : bool :=
-  list_eqb seen_eqb (map seen (prefix_records es [])) orecs.
+  list_eqb seen_eqb (disk (prefix_records es [])) orecs.
